@@ -162,6 +162,62 @@ PROPS.update({
     },
 })
 
+# ---- mutating operations (unit U9)
+_U9_MUT = [r"ParsedPacket::(insert_rr|insertion_offset|rrcount_inc|rrcount_dec|recompute|into_packet|packet_mut|packet)$",
+           r"DNSSector::set_(qd|an|ns|ar)count$",
+           r"trait TypedIterable::(resize_rr|set_raw_name|delete|current_section)$",
+           r"trait DNSIterable::(uncompress|set_offset|set_offset_next|invalidate|recompute_rr|recompute_sections|raw_mut|parsed_packet_mut|name_slice|rdata_slice_mut)$",
+           r"trait RdataIterable::(set_rr_ttl|set_rr_ip)$",
+           r"<DNSIterable for (Response|Question)Iterator>::(set_offset|set_offset_next|invalidate|recompute_rr|recompute_sections|raw_mut|parsed_packet_mut)$",
+           r"RRIterator::recompute$", r"Compress::raw_name_len$",
+           r"spec/(mutate|pfpacket|pfedit|pfedit_names|locality|uncompress)\.rs"]
+_U9_ASSUME = ["unc_keeps_edns: decompression copies the OPT record verbatim, so the EDNS summary of the object also describes the decompressed bytes (stated as a precondition of the resizing mutators; not mechanised)",
+              "DNSIterable::rdata_slice_mut (a two-line `&mut packet[name_end..]` accessor) is taken on trust with its obvious contract: Verus keeps no length facts for a mutable sub-slice",
+              "slice_copy_into / be_write_* shims stand for `D[a..b].copy_from_slice(S)` / BigEndian::write_* (rewrite table R10, R26) with the std semantics as their contract",
+              "Compress::uncompress / uncompress_with_previous_offset / check_compressed_name / DNSSector::parse enter unit U9 by their contracts, which are verified in units U6 / U1",
+              "the trait-level preconditions of set_raw_name / delete / uncompress (cursor_ok, mid_ok, del_ok: 'the cursor designates a record of the packet, later section offsets lie behind it') are what a cursor obtained from into_iter_* / next satisfies (iterator invariant of unit U2); the lemma connecting the two for every section is not mechanised yet",
+              "units with iterator client loops are verified with --no-lifetime"]
+PROPS.update({
+    "C08": {
+        "title": "A mutated packet object always matches a fresh parse of its own bytes",
+        "units": ["U9"], "cone": _U9_MUT,
+        "witness": ("c08", 6000),
+        "level": "proof", "design_ref": "DESIGN.md section 5 C08",
+        "assumptions": _U9_ASSUME,
+        "level_text": "PARTIAL proof: every mutator (insert_rr, set_raw_name, delete, resize_rr, DNSIterable::uncompress, set_rr_ttl, set_rr_ip, rrcount_inc/dec, recompute) is proved to leave the object in an EXACTLY specified state -- bytes and each of the five offsets, the EDNS summary, the cache and the pointer flag as a function of the state before (spec/mutate.rs: inserted, named, deleted, resized, after_unc) -- and the cursor on the specified record (tombstone after delete, same record after rename/decompression). After in-place decompression the object is proved to satisfy the reader-level invariant wf() for the decompressed bytes (theorem_c05 + parse contract). NOT proved by contracts: that the specified state after insert/rename/delete again satisfies wf() for the new bytes (the edit lemma over pf_packet), and acceptance by the parser (policy clauses: open known finding); these are exercised by the differential replay (fresh parse after every step)",
+        "technique": "Verus exact-state postconditions on the extracted mutators (trait default methods verified once against abstract cursor specs); invariant re-establishment by differential replay (stated)",
+    },
+    "C09": {
+        "title": "Each mutation has exactly its stated effect; the rest is untouched",
+        "units": ["U9"], "cone": _U9_MUT,
+        "witness": ("c09", 6000),
+        "level": "proof", "design_ref": "DESIGN.md section 5 C09",
+        "assumptions": _U9_ASSUME + ["'the decoded message' is read off the byte-level postconditions: a splice of the decompressed packet at a record boundary changes exactly that record (uncompress_spec is proved message-preserving in C05); the decode function itself is not re-applied to the result in the proof"],
+        "level_text": "byte-exact frame postconditions: set_raw_name == splice(decompressed bytes, owner-name range, new name); delete == the record's byte range cut out, only its section's count lowered; insert_rr == the record spliced in at the end of the chosen section (start of the next non-empty section or end of packet), only that count raised; set_rr_ttl / set_rr_ip == exactly the 4 / 4 / 16 bytes at fixed offsets after the owner name; resize_rr == tail moved by the difference. Everything before the record and everything after it is proved byte-identical (moved), every untargeted field of the object equal",
+        "technique": "Verus byte-exact frame postconditions (Seq splice equalities) on the extracted mutators",
+    },
+    "C10": {
+        "title": "A failed operation changes nothing; the size limit cannot be bypassed",
+        "units": ["U9"], "cone": _U9_MUT,
+        "witness": ("c10", 6000),
+        "level": "proof", "design_ref": "DESIGN.md section 5 C10",
+        "assumptions": _U9_ASSUME + ["'malformed record text' (RR::from_string) and 'a rename that overflows a name' are covered by C13 / C07; insert_rr_from_string is the composition and is not under contract itself"],
+        "level_text": "for every mutator each Err exit is proved to leave the object equal to its entry state, or -- when the failure comes after the in-place decompression -- equal to the decompressed entry state (same message, after_unc); rrcount_inc refuses a second question and the 65536th record before any byte moves; set_raw_name validates the name before any byte moves; a tombstone cursor is refused first; insert_rr Ok ==> resulting length <= 8192 whatever the entry length (explicit postcondition), and the subtraction in the size check cannot underflow",
+        "technique": "Verus postconditions on every error exit of the extracted mutators + explicit size-cap postcondition",
+    },
+    "C11": {
+        "title": "Deleting records while iterating is safe, exact and terminates",
+        "units": ["U9"],
+        "cone": [r"trait TypedIterable::(delete|resize_rr|current_section)$", r"trait DNSIterable::(set_offset|set_offset_next|invalidate|is_tombstone|recompute_rr|recompute_sections|raw_mut|parsed_packet_mut)$",
+                 r"ResponseIterator::(next|next_including_opt|maybe_skip_opt_section)$", r"QuestionIterator::next$", r"ParsedPacket::(rrcount_dec|into_iter_)", r"RRIterator::", r"spec/(mutate|iter|reader)\.rs"],
+        "witness": ("c11", 6000),
+        "level": "proof", "design_ref": "DESIGN.md section 5 C11",
+        "assumptions": _U9_ASSUME + ["the walk itself (a client loop calling next() and delete()) is not a function of the repository; its termination and the 'every survivor is yielded, no deleted record again' clauses are exercised by the differential replay (all subsets of up to 8 records), not proved"],
+        "level_text": "PARTIAL proof: delete() through a cursor removes exactly the byte range of the record under the cursor from the (decompressed) packet, lowers exactly that section's count, clears the section offset when the count reaches zero, and turns the cursor into a tombstone whose restart position is the start of the removed record; a second delete() through the same cursor returns an error and leaves packet and cursor untouched (explicit postcondition). NOT proved: the whole-walk clauses (see assumptions)",
+        "technique": "Verus exact-state postcondition of delete() incl. the tombstone protocol; whole-walk clauses by differential replay (stated)",
+    },
+})
+
 NOT_APPLICABLE = {
     "C15": "C ABI facade: unsafe extern \"C\" wrappers over raw pointers driven through callbacks, plus parity with a C header; "
            "neither Verus (no model of these raw-pointer casts/CStr) nor Kani (no callbacks-as-scripts, every fallible wrapper reaches anyhow) "
